@@ -58,6 +58,8 @@ pub enum Ev {
     FdtFull(u32),
     OtherTsi,
     OtherEndpoint,
+    /// advance the clock by a bit more than half the object timeout, cleanup
+    HalfTick,
     /// advance the clock beyond the object timeout, cleanup
     TickObj,
     /// advance the clock beyond the session timeout, cleanup
@@ -77,6 +79,9 @@ const OBJ_TIMEOUT: u64 = 10;
 const SESS_TIMEOUT: u64 = 30;
 
 pub struct Rx {
+    /// virtual time (s) of the last packet of every object touched: (session, toi) -> seconds
+    pub last_pkt: std::collections::BTreeMap<(u8, u128), u64>,
+    pub clock_s: u64,
     /// sessions touched so far: main, other TSI, other endpoint (max_objects_error is per session)
     pub sessions: [bool; 3],
     pub rx: MultiReceiver,
@@ -125,7 +130,7 @@ impl Rx {
             object_receive_once: true,
             enable_fdt_expiration_check: true,
         };
-        Rx { sessions: [false; 3], rx: MultiReceiver::new(Rc::new(NullBuilder), Some(cfg), false), esi: [0; 256], now: t0(), fresh: 100 }
+        Rx { last_pkt: Default::default(), clock_s: 0, sessions: [false; 3], rx: MultiReceiver::new(Rc::new(NullBuilder), Some(cfg), false), esi: [0; 256], now: t0(), fresh: 100 }
     }
     pub fn nb_sessions(&self) -> usize {
         self.sessions.iter().filter(|s| **s).count().max(1)
@@ -135,7 +140,7 @@ impl Rx {
         match ev {
             Ev::OtherTsi => self.sessions[1] = true,
             Ev::OtherEndpoint => self.sessions[2] = true,
-            Ev::TickObj | Ev::TickSess => {}
+            Ev::TickObj | Ev::TickSess | Ev::HalfTick => {}
             _ => self.sessions[0] = true,
         }
         match ev {
@@ -146,6 +151,7 @@ impl Rx {
                 } else {
                     *t as u128
                 };
+                alloc::untracked(|| self.last_pkt.insert((0, toi), self.clock_s));
                 let e = self.esi[*t as usize];
                 self.esi[*t as usize] += 1;
                 let p = alloc::untracked(|| obj_pkt(TSI, toi, matches!(ev, Ev::ObjFti(_)), e / 10, e % 10));
@@ -159,11 +165,13 @@ impl Rx {
                 } else {
                     *t as u128
                 };
+                alloc::untracked(|| self.last_pkt.insert((0, toi), self.clock_s));
                 let p = alloc::untracked(|| obj_pkt_b(TSI, toi, true, 0, 1, true));
                 let _ = self.rx.push(&ep0, &p, self.now);
                 alloc::untracked(|| drop(p));
             }
             Ev::ObjFar(t) => {
+                alloc::untracked(|| self.last_pkt.insert((0, *t as u128), self.clock_s));
                 let p = alloc::untracked(|| obj_pkt(TSI, *t as u128, true, 3000, 0));
                 let _ = self.rx.push(&ep0, &p, self.now);
                 alloc::untracked(|| drop(p));
@@ -180,29 +188,46 @@ impl Rx {
                 alloc::untracked(|| drop(p));
             }
             Ev::FdtFull(id) => {
+                let id = if *id == 0 {
+                    self.fresh += 1;
+                    self.fresh
+                } else {
+                    *id
+                };
+                let id = &id;
                 let p = alloc::untracked(|| fdt_full_pkt(*id));
                 let _ = self.rx.push(&ep0, &p, self.now);
                 alloc::untracked(|| drop(p));
             }
             Ev::OtherTsi => {
+                alloc::untracked(|| self.last_pkt.insert((1, 1), self.clock_s));
                 let p = alloc::untracked(|| obj_pkt(77, 1, false, 0, 0));
                 let _ = self.rx.push(&ep0, &p, self.now);
                 alloc::untracked(|| drop(p));
             }
             Ev::OtherEndpoint => {
+                alloc::untracked(|| self.last_pkt.insert((2, 1), self.clock_s));
                 let p = alloc::untracked(|| obj_pkt(TSI, 1, false, 0, 0));
                 let e2 = alloc::untracked(|| endpoint_n(9, None));
                 let _ = self.rx.push(&e2, &p, self.now);
                 alloc::untracked(|| drop((p, e2)));
             }
+            Ev::HalfTick => {
+                flute::verif::clock_advance(Duration::from_secs(OBJ_TIMEOUT / 2 + 1));
+                self.now += Duration::from_secs(OBJ_TIMEOUT / 2 + 1);
+                self.clock_s += OBJ_TIMEOUT / 2 + 1;
+                self.rx.cleanup(self.now);
+            }
             Ev::TickObj => {
                 flute::verif::clock_advance(Duration::from_secs(OBJ_TIMEOUT + 1));
                 self.now += Duration::from_secs(OBJ_TIMEOUT + 1);
+                self.clock_s += OBJ_TIMEOUT + 1;
                 self.rx.cleanup(self.now);
             }
             Ev::TickSess => {
                 flute::verif::clock_advance(Duration::from_secs(SESS_TIMEOUT + 1));
                 self.now += Duration::from_secs(SESS_TIMEOUT + 1);
+                self.clock_s += SESS_TIMEOUT + 1;
                 self.rx.cleanup(self.now);
             }
         }
@@ -230,6 +255,18 @@ pub fn run_seq(c: &Cfg, seq: &[Ev], repeat: usize) -> (Option<(String, String)>,
                 if errs > c.max_err * rx.nb_sessions() {
                     return (Some(("C17/failed-object-list-exceeds-its-limit".into(), format!("nb_objects_error() = {} over {} session(s) with max_objects_error = {} per session after {:?} (repetition {})", errs, rx.nb_sessions(), c.max_err, ev, rep))), peak);
                 }
+                if matches!(ev, Ev::TickObj | Ev::TickSess | Ev::HalfTick) {
+                    // a cleanup has just run: only objects that received a packet within the object
+                    // time-out may still be in reception
+                    let fresh_enough = rx.last_pkt.values().filter(|t| rx.clock_s - **t <= OBJ_TIMEOUT).count();
+                    let nobj = rx.rx.nb_objects();
+                    if nobj > fresh_enough {
+                        return (
+                            Some(("C17/stalled-object-survives-cleanup".into(), format!("after {:?} (repetition {}) nb_objects() = {} but only {} object(s) received a packet within the {} s object time-out; sequence {:?}", ev, rep, nobj, fresh_enough, OBJ_TIMEOUT, seq))),
+                            peak,
+                        );
+                    }
+                }
                 let held = alloc::live() - base;
                 peak = peak.max(held);
                 if pumping && rep >= w1 {
@@ -243,8 +280,8 @@ pub fn run_seq(c: &Cfg, seq: &[Ev], repeat: usize) -> (Option<(String, String)>,
         }
         marks.clear();
         if pumping {
-            let uses_fresh = seq.iter().any(|e| matches!(e, Ev::ObjNoFti(0) | Ev::ObjFti(0) | Ev::FdtFrag(0) | Ev::ObjFtiB(0)));
-            let releases = seq.iter().any(|e| matches!(e, Ev::TickObj | Ev::TickSess));
+            let uses_fresh = seq.iter().any(|e| matches!(e, Ev::ObjNoFti(0) | Ev::ObjFti(0) | Ev::FdtFrag(0) | Ev::ObjFtiB(0) | Ev::FdtFull(0)));
+            let releases = seq.iter().any(|e| matches!(e, Ev::TickObj | Ev::TickSess)) && !seq.iter().any(|e| matches!(e, Ev::HalfTick));
             if (!uses_fresh || releases) && peak2 > peak1 + (E as isize + 512) {
                 return (
                     Some((
@@ -344,7 +381,7 @@ pub fn replay(v: &serde_json::Value) -> Vec<Violation> {
 pub fn run(thorough: bool) -> i32 {
     let mut rep = Report::new("C17", "model_checking", if thorough { "thorough" } else { "quick" });
     let depth = if thorough { 5 } else { 4 };
-    let alphabet = vec![Ev::ObjNoFti(1), Ev::ObjNoFti(0), Ev::ObjFti(1), Ev::ObjFti(2), Ev::ObjFtiB(0), Ev::ObjFtiB(1), Ev::ObjFar(1), Ev::FdtFrag(1), Ev::FdtFrag(0), Ev::FdtFull(3), Ev::OtherTsi, Ev::OtherEndpoint, Ev::TickObj, Ev::TickSess];
+    let alphabet = vec![Ev::ObjNoFti(1), Ev::ObjNoFti(0), Ev::ObjFti(1), Ev::ObjFti(2), Ev::ObjFtiB(0), Ev::ObjFtiB(1), Ev::ObjFar(1), Ev::FdtFrag(1), Ev::FdtFrag(0), Ev::FdtFull(3), Ev::FdtFull(0), Ev::OtherTsi, Ev::OtherEndpoint, Ev::HalfTick, Ev::TickObj, Ev::TickSess];
     let cfgs: Vec<Cfg> = {
         let mut v = Vec::new();
         for cache in [3 * (E + 40), 64 * 1024] {
